@@ -25,9 +25,13 @@ for _i in INVARIANTS:
 RULE = ('one case = one seeded sequence of send / poll / deliver(n bytes) / corrupt operations on a client and an accepted '
         'server TcpConnection with a drawn socket capacity (1 byte .. 64 KiB) and message sizes 0 .. several times the '
         'capacity, in both directions; distinct = distinct digest of the executed op list and outcomes; non-trivial = at '
-        'least one partial send (socket took fewer bytes than offered) or one read that ended inside a frame occurred')
-COMPONENTS_REAL = ['pysyncobj.tcp_connection.TcpConnection', 'pysyncobj.tcp_server.TcpServer', 'pysyncobj.pickle']
-COMPONENTS_STUB = ['socket module (SimNet byte pipes)', 'poller (SimPoller)', 'monotonic clock (virtual)']
+        'least one partial send (socket took fewer bytes than offered) or one read that ended inside a frame occurred; one case '
+        'in eight is a poller batch: the repository\'s PollPoller or SelectPoller over 2-5 sockets whose callbacks close, replace, '
+        'unsubscribe or re-subscribe OTHER descriptors while one batch of events is handled, with descriptor numbers re-used')
+COMPONENTS_REAL = ['pysyncobj.tcp_connection.TcpConnection', 'pysyncobj.tcp_server.TcpServer', 'pysyncobj.pickle',
+                   'pysyncobj.poller.PollPoller / SelectPoller (poller-batch cases: one case in eight)']
+COMPONENTS_STUB = ['socket module (SimNet byte pipes)', 'poller of the framing cases (SimPoller)', 'select module of the poller-batch cases (simulated select()/poll(), descriptor re-use)',
+                   'monotonic clock (virtual)']
 ASSUMPTIONS = ['SimNet follows TCP: FIFO byte stream per direction, no loss/duplication except injected corruption',
                'None is never sent as a message (the parse loop uses None as "no message"; the protocol never sends it)',
                'no encryption (cryptography is not installed)']
